@@ -166,6 +166,21 @@ theorem slotRun_inv {π : Type} {sel : Selector π} (hsel : SelOK sel) {thr : XF
       have : count + 1 + k = count + (k + 1) := by omega
       simpa [this] using h2
 
+/-! ### warm-started roots (reuse_preconditioner, frequent directions) -/
+
+theorem slotRunDep_good {π : Type} {sel : Selector π} (hsel : SelOK sel) {thr : XF} (hthr : thr.isNaN = false)
+    (itv : Nat) (root : WarmRoot π) (Good : π → Prop)
+    (hroot : ∀ c p, Good p → (root c p).err.isNaN = false → (root c p).err.lt thr = true → Good (root c p).cand) :
+    ∀ (n count : Nat) (s : Slot π), Good s.precond → Good (slotRunDep sel thr itv root count s n).precond
+  | 0, _, _, h => h
+  | n + 1, count, s, h => by
+    show Good (slotRunDep sel thr itv root (count + 1) (slotStepDep sel thr itv count root s) n).precond
+    apply slotRunDep_good hsel hthr itv root Good hroot n
+    unfold slotStepDep
+    rcases slotStep_spec hsel hthr itv count s (root count s.precond) with h' | ⟨h', _, h2, h3⟩
+    · rw [h']; exact h
+    · rw [h']; exact hroot count s.precond h h2 h3
+
 /-! ### the whole state -/
 
 theorem stateStep_good {π : Type} {sel : Selector π} (hsel : SelOK sel) {thr : XF} (hthr : thr.isNaN = false)
